@@ -754,6 +754,16 @@ fn run_case(base: &Base, bi: usize, variant: Option<usize>, assignment: &[(usize
             if !check_locations(&w, &doc.sources, "ast::Document", &source, st, &fail) {
                 return;
             }
+            // line/column *ranges* of every node and name (start and end) against the reference
+            for (what, loc) in w.nodes.iter().map(|(w, l)| (w.to_string(), *l)).chain(w.names.iter().map(|(w, n, l)| (format!("{w} `{n}`"), *l))) {
+                let loc = loc.unwrap();
+                let (a, b) = (loc.offset(), loc.end_offset());
+                let expect = pos.at(a).zip(pos.at(b));
+                let got = loc.line_column_range(&doc.sources).map(|r| ((r.start.line, r.start.column), (r.end.line, r.end.column)));
+                if got != expect {
+                    return fail(st, "node-line-column-range", format!("{what} at {a}..{b}: line_column_range() = {got:?}, reference {expect:?}"));
+                }
+            }
             // reference: each AST name sits exactly on a name token of the layout
             for (what, name, loc) in &w.names {
                 let loc = loc.unwrap();
@@ -941,6 +951,17 @@ fn run_item(bases: &[Base], it: &Item, open: Open, st: &mut Stats) {
 }
 
 fn replay(bases: &[Base], case: &Value, open: Open, st: &mut Stats) {
+    if case["part"].as_str().is_some_and(|p| p.starts_with("standalone")) {
+        // the standalone part is small: re-run it and keep the failures for this text
+        let mut all = Stats::default();
+        standalone_part(&mut all);
+        for (sig, (n, f)) in all.failures {
+            if f.case["text"] == case["text"] {
+                st.failures.insert(sig, (n, f));
+            }
+        }
+        return;
+    }
     let bi = case["base"].as_u64().unwrap_or(0) as usize;
     let variant = case["variant"].as_i64().filter(|v| *v >= 0).map(|v| v as usize);
     let assignment: Vec<(usize, usize)> = case["assignment"]
@@ -948,6 +969,125 @@ fn replay(bases: &[Base], case: &Value, open: Open, st: &mut Stats) {
         .map(|a| a.iter().map(|p| (p[0].as_u64().unwrap_or(0) as usize, p[1].as_u64().unwrap_or(0) as usize)).collect())
         .unwrap_or_default();
     run_case(&bases[bi], bi, variant, &assignment, open, st);
+}
+
+// ---------------------------------------------------------------------------------------------
+// Standalone entry points: a type reference or a field set parsed on its own. Here a name can sit
+// at byte offset 0 of its file, which never happens in a document.
+// ---------------------------------------------------------------------------------------------
+
+const TYPE_CORES: [&[&str]; 5] = [&["Org"], &["Org", "!"], &["[", "Org", "]"], &["[", "Org", "!", "]", "!"], &["[", "[", "Org", "]", "]"]];
+const FIELD_SET_CORES: [&[&str]; 4] = [&["a"], &["a", "t"], &["t", "{", "a", "}"], &["{", "a", "t", "{", "b", "}", "}"]];
+
+fn standalone_schema() -> &'static apollo_compiler::validation::Valid<apollo_compiler::Schema> {
+    static S: std::sync::OnceLock<apollo_compiler::validation::Valid<apollo_compiler::Schema>> = std::sync::OnceLock::new();
+    S.get_or_init(|| {
+        apollo_compiler::Schema::parse_and_validate("type Query { a: Int t: T } type T { a: Int b: Int }", "s.graphql")
+            .unwrap_or_else(|e| vcore::machinery_error(&format!("C11 standalone fixture: {}", e.errors)))
+    })
+}
+
+/// lead + tokens joined by `gap` + trail; returns the text and the offset of every token
+fn lay(tokens: &[&str], lead: &str, gap: &str, trail: &str) -> (String, Vec<usize>) {
+    let mut s = String::from(lead);
+    let mut offs = Vec::new();
+    for (i, t) in tokens.iter().enumerate() {
+        if i > 0 {
+            s.push_str(gap);
+        }
+        offs.push(s.len());
+        s.push_str(t);
+    }
+    s.push_str(trail);
+    (s, offs)
+}
+
+fn standalone_part(st: &mut Stats) {
+    let leads: Vec<&str> = std::iter::once("").chain(SEPARATORS.iter().copied()).collect();
+    let gaps = ["", " ", "\n", "#é中\n"];
+    let trails = ["", "\n", "\r", "#é"];
+    for lead in &leads {
+        for gap in gaps {
+            for trail in trails {
+                for core in TYPE_CORES {
+                    let (text, offs) = lay(core, lead, gap, trail);
+                    st.states += 1;
+                    st.transitions += 1;
+                    let case = json!({"part": "standalone-type", "text": text});
+                    let name_off = offs[core.iter().position(|t| *t == "Org").unwrap()];
+                    match vcore::catch(|| ast::Type::parse(text.as_str(), "t.graphql")) {
+                        Err(p) => st.fail_simple("standalone:panic", case, format!("Type::parse panicked: {p}"), text.len() as u64),
+                        Ok(Err(e)) => st.fail_simple("standalone:type-does-not-parse", case, format!("{}", e), text.len() as u64),
+                        Ok(Ok(ty)) => {
+                            let n = ty.inner_named_type();
+                            match n.location() {
+                                None => st.fail_simple("standalone:name-without-location", case, format!("the named type of {text:?} has no location"), text.len() as u64),
+                                Some(l) if l.offset() != name_off || l.end_offset() != name_off + 3 => st.fail_simple(
+                                    "standalone:name-location-is-not-the-name",
+                                    case,
+                                    format!("named type of {text:?} located at {}..{}, the name is at {name_off}..{}", l.offset(), l.end_offset(), name_off + 3),
+                                    text.len() as u64,
+                                ),
+                                Some(_) => st.outcome(if name_off == 0 { "standalone type: name at offset 0 located" } else { "standalone type: name located" }),
+                            }
+                        }
+                    }
+                }
+                for core in FIELD_SET_CORES {
+                    let (text, offs) = lay(core, lead, if gap.is_empty() { " " } else { gap }, trail);
+                    st.states += 1;
+                    st.transitions += 1;
+                    let case = json!({"part": "standalone-field-set", "text": text});
+                    let size = text.len() as u64;
+                    let parsed = vcore::catch(|| ex::FieldSet::parse(standalone_schema(), apollo_compiler::name!("Query"), text.as_str(), "f.graphql"));
+                    let fs = match parsed {
+                        Err(p) => {
+                            st.fail_simple("standalone:panic", case, format!("FieldSet::parse panicked: {p}"), size);
+                            continue;
+                        }
+                        Ok(Err(e)) => {
+                            st.fail_simple("standalone:field-set-does-not-parse", case, format!("{}", e.errors), size);
+                            continue;
+                        }
+                        Ok(Ok(fs)) => fs,
+                    };
+                    let pos = Positions::new(&text, Params::default());
+                    // expected name tokens in order of appearance
+                    let expected: Vec<(usize, &str)> = core.iter().zip(&offs).filter(|(t, _)| t.chars().all(|c| c.is_ascii_alphabetic())).map(|(t, o)| (*o, *t)).collect();
+                    let mut found: Vec<(usize, String)> = Vec::new();
+                    let mut bad = None;
+                    let mut stack: Vec<&ex::SelectionSet> = vec![&fs.selection_set];
+                    while let Some(set) = stack.pop() {
+                        for sel in &set.selections {
+                            if let ex::Selection::Field(f) = sel {
+                                match f.name.location() {
+                                    None => bad = Some(format!("field `{}` of {text:?} has no location", f.name)),
+                                    Some(l) => {
+                                        found.push((l.offset(), f.name.to_string()));
+                                        let expect = pos.at(l.offset()).zip(pos.at(l.end_offset()));
+                                        let got = l.line_column_range(&fs.sources).map(|r| ((r.start.line, r.start.column), (r.end.line, r.end.column)));
+                                        if got != expect {
+                                            bad = Some(format!("field `{}` of {text:?}: line_column_range() = {got:?}, reference {expect:?}", f.name));
+                                        }
+                                    }
+                                }
+                                stack.push(&f.selection_set);
+                            }
+                        }
+                    }
+                    found.sort();
+                    let want: Vec<(usize, String)> = expected.iter().map(|(o, t)| (*o, t.to_string())).collect();
+                    if let Some(b) = bad {
+                        st.fail_simple("standalone:field-name-location", case, b, size);
+                    } else if found != want {
+                        st.fail_simple("standalone:field-name-location", case, format!("{text:?}: field names located at {found:?}, the name tokens are at {want:?}"), size);
+                    } else {
+                        st.outcome(if want.first().map(|w| w.0) == Some(0) { "standalone field set: first name at offset 0 located" } else { "standalone field set: names located" });
+                    }
+                }
+            }
+        }
+    }
 }
 
 fn main() {
@@ -965,6 +1105,9 @@ fn main() {
     let work = items(&bases, k);
     let stats = vcore::par_items(&work, |it, st| run_item(&bases, it, open, st));
     chk.absorb(stats);
+    let mut st = Stats::default();
+    standalone_part(&mut st);
+    chk.absorb(st);
     // a few samples, deterministically
     for (bi, b) in bases.iter().enumerate() {
         let (s, _, _) = b.layout(None, &[(1, 7), (b.points() - 1, 0)]);
